@@ -190,6 +190,16 @@ Definition view_doc (sh : shard) (d : sdoc) : list (N * ddoc) :=
   | _, _ => []
   end.
 Definition view (sh : shard) : list (N * ddoc) := flat_map (view_doc sh) (sh_docs sh).
+(** the same with the whole repository record instead of its id: what List reports of a repository and what
+    Search reads of it (id, priority, tombstone flag, branch names in order -- bit 0 is HEAD --, sub-repository
+    paths) *)
+Definition viewr_doc (sh : shard) (d : sdoc) : list (srepo * ddoc) :=
+  match nth_error (sh_repos sh) (sd_repo d), decode sh d with
+  | Some r, Ok dd => if sr_tomb r then [] else [(r, dd)]
+  | _, _ => []
+  end.
+Definition viewr (sh : shard) : list (srepo * ddoc) := flat_map (viewr_doc sh) (sh_docs sh).
+Definition id_entry (e : srepo * ddoc) : N * ddoc := (sr_id (fst e), snd e).
 
 (** ---- decidable preconditions of the totality theorems (Proofs/MergeDocsTotal.v proves that they reflect
     [wf_shard] and [mergeable]); evaluated by the runner on every generated input *)
